@@ -1,5 +1,6 @@
 # -*- coding: utf-8 -*-
 import numpy as np
+import datetime
 from pyg_base._types import is_nan, is_iterable, is_float
 from pyg_base._loop import len0
 from pyg_base._as_primitive import as_primitive
@@ -14,6 +15,15 @@ def cmparr(x,y):
             return c
     return c
                 
+
+def _type_rank(x):
+    """the type name values are ranked by: ints rank with floats (keeping their exact value) and datetime subclasses (pd.Timestamp) with datetime"""
+    if isinstance(x, int) and not isinstance(x, bool):
+        return str(float)
+    elif isinstance(x, datetime.datetime):
+        return str(datetime.datetime)
+    else:
+        return str(type(x))
 
 def cmp(x,y):
     """
@@ -46,8 +56,8 @@ def cmp(x,y):
     if x is y:
         return 0
     x,y = as_primitive([x,y])
-    tx = str(float) if isinstance(x, int) and not isinstance(x, bool) else str(type(x)) # ints rank with floats but keep their exact value
-    ty = str(float) if isinstance(y, int) and not isinstance(y, bool) else str(type(y))
+    tx = _type_rank(x)
+    ty = _type_rank(y)
     if tx<ty:
         return -1
     elif ty<tx:
